@@ -53,7 +53,18 @@ func atomFacts(p *Prog, cf condFact, helpers map[*ssa.Function]bool, depth int) 
 				sub[prm.Name()] = msgPath(cf.Call.Common().Args[i])
 			}
 			for _, f := range trueImplies(p, sc, depth+1) {
-				out = append(out, substPaths(f, sub))
+				f = substPaths(f, sub)
+				// a comparison with a parameter of the helper is a comparison with the constant the caller passes
+				if j := strings.Index(f, "=$"); j >= 0 {
+					for i, prm := range sc.Params {
+						if f[j+2:] == prm.Name() {
+							if k, ok := constInt(cf.Call.Common().Args[i]); ok {
+								f = fmt.Sprintf("%s=%d", f[:j], k)
+							}
+						}
+					}
+				}
+				out = append(out, f)
 			}
 		}
 		return out
@@ -80,6 +91,11 @@ func atomFacts(p *Prog, cf condFact, helpers map[*ssa.Function]bool, depth int) 
 			}
 		}
 		out = append(out, fmt.Sprintf("cmp:%s=%d", msgPath(x), k))
+	}
+	if prm, ok := resolve(y).(*ssa.Parameter); ok && eq {
+		if bt, ok := prm.Type().Underlying().(*types.Basic); ok && bt.Info()&types.IsInteger != 0 {
+			out = append(out, fmt.Sprintf("cmp:%s=$%s", msgPath(x), prm.Name()))
+		}
 	}
 	if s, ok := constString(y); ok && eq {
 		out = append(out, "cmpstr:"+msgPath(x)+"="+s)
